@@ -42,7 +42,7 @@ def decl(kind, n, mask):
 
 def call_text(kind, callee, n, args):
     """args: list of (name or None, value)"""
-    a = ", ".join(("%s = %d" % (nm, v)) if nm else str(v) for nm, v in args)
+    a = ", ".join((("%s = %d" % (nm, v)) if nm != "self" else "self = Recv(9)") if nm else str(v) for nm, v in args)
     shown = ' .. "," .. '.join("r.%s" % x for x in NAMES[:n])
     if kind == "fn":
         return "%s(%s)" % (callee, a)
@@ -240,7 +240,12 @@ def run(ctx):
                     key = "%s n=%d defaults=%s call=%s" % (kind, n, format(mask, "0%db" % n), ",".join(("%s=" % nm if nm else "") + str(v) for nm, v in args))
                     cases.append(Case(key, call_text(kind, callee, n, args), ("out", expected(kind, n, mask, p, named)), d))
                 if n <= 3 or not ctx.quick or mask in (0, 5, 15):
-                    for label, args in misuse(n, mask):
+                    extra = []
+                    if kind == "member":
+                        # the receiver is not a parameter a call site can name
+                        full = [(NAMES[i], 100 + i) for i in range(n)]
+                        extra = [("names-the-receiver", full + [("self", 0)]), ("names-the-receiver-first", [("self", 0)] + full)]
+                    for label, args in misuse(n, mask) + extra:
                         key = "%s n=%d defaults=%s misuse=%s" % (kind, n, format(mask, "0%db" % n), label)
                         rejects.append((key, "type Recv = {\n  z: int\n}\n" + d + call_text(kind, callee, n, args) + "\n"))
     for k, src in NEEDS_ITSELF.items():
